@@ -41,11 +41,14 @@ static inline uint32_t ref_load32le(const uint8_t *p) {
 }
 
 /* key stream block = serialize_le(rounds(state) + state) */
-static inline void ref_chacha_block(const uint32_t st[16], unsigned rounds, uint8_t out[64]) {
-	uint32_t x[16];
+static inline void ref_chacha_block_words(const uint32_t st[16], unsigned rounds, uint32_t x[16]) {
 	for (int i = 0; i < 16; i++) x[i] = st[i];
 	ref_chacha_rounds(x, rounds);
 	for (int i = 0; i < 16; i++) x[i] += st[i];
+}
+static inline void ref_chacha_block(const uint32_t st[16], unsigned rounds, uint8_t out[64]) {
+	uint32_t x[16];
+	ref_chacha_block_words(st, rounds, x);
 	for (int i = 0; i < 16; i++) ref_store32le(out + 4 * i, x[i]);
 }
 
